@@ -661,11 +661,20 @@ int vnacal_save(vnacal_t *vcp, const char *pathname)
     bool delete_emitter = false;
     int t_root, t_properties, t_calibrations;
 
-    free((void *)vcp->vc_filename);
-    if ((vcp->vc_filename = strdup(pathname)) == NULL) {
-	_vnacal_error(vcp, VNAERR_SYSTEM,
-		"strdup: %s", strerror(errno));
-	goto error;
+    {
+	char *copy;
+
+	/* pathname may be vnacal_get_filename(vcp): copy, then free */
+	if ((copy = strdup(pathname)) == NULL) {
+	    _vnacal_error(vcp, VNAERR_SYSTEM,
+		    "strdup: %s", strerror(errno));
+	    free((void *)vcp->vc_filename);
+	    vcp->vc_filename = NULL;
+	    return -1;
+	}
+	free((void *)vcp->vc_filename);
+	vcp->vc_filename = copy;
+	pathname = copy;
     }
     errno = 0;
     if (!yaml_document_initialize(&document, &version, &tags[0], &tags[0],
